@@ -1,8 +1,990 @@
-//! C10 — not implemented yet
-use vcore::{Args, Check};
+//! C10 — A restored Cardano database is accepted only if every file is the certified one.
+//!
+//! Per case: an honest database (1–8 immutable trios + optionally the in-progress trio, some files with equal
+//! contents) is written to a scratch directory; the *certified side* is produced by the real code (digester → digest
+//! list → Merkle root → a certificate message whose signed message contains that root) and cross-checked against the
+//! harness' own SHA-256 / MMR restatement. The digest list is served through a `file://` location to the real
+//! `HttpFileDownloader`; the client is a real `mithril_client::Client` (ClientBuilder). Then the restored directory and
+//! / or the served list are tampered with and the caller's sequence of the CLI is executed:
+//! `download_and_verify_digests` → `verify_cardano_database` → `MessageBuilder::compute_cardano_database_message` →
+//! `certificate.match_message`.
+//!
+//! Oracle (independent of the code under test; M = harness-side SHA-256 of the honest files, per NAME):
+//!  A. digests accepted  ⇒ the returned name→digest map is contained in the served list and reproduces the signed root
+//!     under the harness' MMR; the untouched (or merely reordered) list must be accepted.
+//!  B. database accepted ⇒ for every canonical name in the requested range: present (unless allow_missing) and
+//!     SHA-256(content) == M[name]; no other immutable-named file with a number in the range.
+//!  C. rejected with the lists ⇒ every offending name is in missing ∪ tampered ∪ non_verifiable.
+//!  D. positive control: nothing offending, ≥ 1 file in the range ⇒ accepted.
+
+use std::collections::{BTreeMap, BTreeSet};
+use std::path::{Path, PathBuf};
+use std::sync::{Arc, Mutex};
+
+use mithril_cardano_node_internal_database::digesters::{CardanoImmutableDigester, ImmutableDigester};
+use mithril_client::cardano_database_client::{CardanoDatabaseVerificationError, ImmutableFileRange};
+use mithril_client::feedback::FeedbackSender;
+use mithril_client::file_downloader::HttpFileDownloader;
+use mithril_client::{
+    AggregatorDiscoveryType, CardanoDatabaseSnapshot, Client, ClientBuilder, GenesisVerificationKey, MessageBuilder,
+    MithrilCertificate,
+};
+use mithril_common::entities::{DigestLocation, ProtocolMessagePartKey};
+use mithril_common::messages::{CardanoDatabaseDigestListItemMessage, DigestsMessagePart};
+use mithril_common::test::double::{Dummy, fake_keys};
+use proptest::prelude::*;
+use serde::{Deserialize, Serialize};
+use vcore::util::Scratch;
+use vcore::{Args, Check, Report, pick_index};
+
+use crate::c12::{
+    Content, Model, Outcome, canonical_name, cut_root, discard_logger, mmr_root_hex, mmr_self_test, new_runtime,
+    parse_immutable_name, sha256_hex, shuffle, small_content_strategy,
+};
+
+pub const KEY_WRONG_NAME: &str = "accepted-certified-content-under-wrong-name";
+pub const KEY_WRONG_NAME_UNREPORTED: &str = "unreported-certified-content-under-wrong-name";
+
+// ---------------------------------------------------------------------------------------------------------------
+// case description
+// ---------------------------------------------------------------------------------------------------------------
+
+#[derive(Clone, Debug, Serialize, Deserialize)]
+struct Db10 {
+    first: u64,
+    trios: Vec<[Content; 3]>,
+    /// the trio the node is still writing (number last+1, not certified)
+    in_progress: Option<[Content; 3]>,
+}
+
+impl Db10 {
+    fn last(&self) -> u64 {
+        self.first + self.trios.len() as u64 - 1
+    }
+}
+
+#[derive(Clone, Debug, Serialize, Deserialize)]
+struct RangeSpec {
+    /// 0 Full, 1 From, 2 UpTo, 3 Range
+    kind: u8,
+    a: u16,
+    b: u16,
+    invalid: bool,
+}
+
+#[derive(Clone, Debug, Serialize, Deserialize)]
+enum DirTamper {
+    Flip { file: u16, pos: u16, xor: u8 },
+    Truncate { file: u16, newlen: u16 },
+    Append { file: u16, extra: Vec<u8> },
+    Delete { file: u16 },
+    DeleteTrio { trio: u16 },
+    ReplaceFresh { file: u16, content: Content },
+    /// exchange the contents of two file names
+    Swap { a: u16, b: u16 },
+    /// copy the content of one file over another name
+    CopyOver { from: u16, to: u16 },
+    /// rotate the contents of all files of one extension by one trio (a scrambled but "complete" database)
+    RotateExt { ext: u8 },
+    /// add a file that the honest database does not have. kind: 0 unpadded number, 1 six-digit padding, 2 beyond the
+    /// beacon, 3 non-immutable name, 4 non-numeric stem with an immutable extension, 5 beside immutable/,
+    /// 6 canonical name below the first certified trio. `copy_of`: take the content of that certified file.
+    AddForeign { kind: u8, num: u16, ext: u8, copy_of: Option<u16>, content: Content },
+}
+
+#[derive(Clone, Debug, Serialize, Deserialize)]
+enum ListTamper {
+    Reverse,
+    Shuffle(u64),
+    AddBeyondBeacon { n: u8 },
+    AddUnparsable,
+    DuplicateIdentical { i: u16 },
+    /// rename an entry so that its position in name order and its number are kept (`00001.chunk` → `00001.chunk0`)
+    RenameKeepOrder { i: u16 },
+    Drop { i: u16 },
+    /// rename to the name of a number beyond the beacon (= dropped by the filter)
+    RenameBeyond { i: u16 },
+    SwapDigests { i: u16, j: u16 },
+    SwapNames { i: u16, j: u16 },
+    FlipDigest { i: u16, pos: u8 },
+    AddInRange { num: u16, digest_of: Content },
+    DuplicateConflicting { i: u16, digest_of: Content },
+    Empty,
+}
+
+#[derive(Clone, Debug, Serialize, Deserialize)]
+struct Case10 {
+    db: Db10,
+    range: RangeSpec,
+    allow_missing: bool,
+    dir: Vec<DirTamper>,
+    list: Vec<ListTamper>,
+}
+
+// ---------------------------------------------------------------------------------------------------------------
+// strategies
+// ---------------------------------------------------------------------------------------------------------------
+
+fn db10_strategy() -> impl Strategy<Value = Db10> {
+    let trio = || prop::array::uniform3(small_content_strategy());
+    (
+        prop::collection::vec(trio(), 1..=8),
+        prop_oneof![5 => Just(0u64), 2 => 1u64..=3],
+        prop::option::weighted(0.7, trio()),
+    )
+        .prop_map(|(trios, first, in_progress)| Db10 { first, trios, in_progress })
+}
+
+fn range_strategy() -> impl Strategy<Value = RangeSpec> {
+    (0u8..4, any::<u16>(), any::<u16>(), prop::bool::weighted(0.03))
+        .prop_map(|(kind, a, b, invalid)| RangeSpec { kind, a, b, invalid })
+}
+
+fn dir_tamper_strategy() -> impl Strategy<Value = DirTamper> {
+    let f = any::<u16>;
+    let p = || prop_oneof![1 => Just(u16::MAX), 4 => any::<u16>()];
+    prop_oneof![
+        3 => (f(), p(), 1u8..=255).prop_map(|(file, pos, xor)| DirTamper::Flip { file, pos, xor }),
+        2 => (f(), p()).prop_map(|(file, newlen)| DirTamper::Truncate { file, newlen }),
+        2 => (f(), prop::collection::vec(any::<u8>(), 1..4)).prop_map(|(file, extra)| DirTamper::Append { file, extra }),
+        2 => f().prop_map(|file| DirTamper::Delete { file }),
+        1 => f().prop_map(|trio| DirTamper::DeleteTrio { trio }),
+        2 => (f(), small_content_strategy()).prop_map(|(file, content)| DirTamper::ReplaceFresh { file, content }),
+        5 => (f(), f()).prop_map(|(a, b)| DirTamper::Swap { a, b }),
+        4 => (f(), f()).prop_map(|(from, to)| DirTamper::CopyOver { from, to }),
+        1 => (0u8..3).prop_map(|ext| DirTamper::RotateExt { ext }),
+        4 => (0u8..7, f(), 0u8..3, prop::option::of(f()), small_content_strategy())
+            .prop_map(|(kind, num, ext, copy_of, content)| DirTamper::AddForeign { kind, num, ext, copy_of, content }),
+    ]
+}
+
+fn list_tamper_strategy() -> impl Strategy<Value = ListTamper> {
+    let f = any::<u16>;
+    prop_oneof![
+        2 => Just(ListTamper::Reverse),
+        2 => any::<u64>().prop_map(ListTamper::Shuffle),
+        2 => (1u8..4).prop_map(|n| ListTamper::AddBeyondBeacon { n }),
+        1 => Just(ListTamper::AddUnparsable),
+        1 => f().prop_map(|i| ListTamper::DuplicateIdentical { i }),
+        3 => f().prop_map(|i| ListTamper::RenameKeepOrder { i }),
+        1 => f().prop_map(|i| ListTamper::Drop { i }),
+        1 => f().prop_map(|i| ListTamper::RenameBeyond { i }),
+        2 => (f(), f()).prop_map(|(i, j)| ListTamper::SwapDigests { i, j }),
+        2 => (f(), f()).prop_map(|(i, j)| ListTamper::SwapNames { i, j }),
+        1 => (f(), 0u8..64).prop_map(|(i, pos)| ListTamper::FlipDigest { i, pos }),
+        1 => (f(), small_content_strategy()).prop_map(|(num, digest_of)| ListTamper::AddInRange { num, digest_of }),
+        1 => (f(), small_content_strategy()).prop_map(|(i, digest_of)| ListTamper::DuplicateConflicting { i, digest_of }),
+        1 => Just(ListTamper::Empty),
+    ]
+}
+
+fn case_strategy() -> impl Strategy<Value = Case10> {
+    (
+        db10_strategy(),
+        range_strategy(),
+        prop::bool::weighted(0.35),
+        prop_oneof![1 => Just(vec![]).boxed(), 8 => prop::collection::vec(dir_tamper_strategy(), 1..=3).boxed()],
+        prop_oneof![6 => Just(vec![]).boxed(), 4 => prop::collection::vec(list_tamper_strategy(), 1..=2).boxed()],
+    )
+        .prop_map(|(db, range, allow_missing, dir, list)| Case10 { db, range, allow_missing, dir, list })
+}
+
+// ---------------------------------------------------------------------------------------------------------------
+// the real client (one per worker thread: its private temporary directory is derived from a timestamp)
+// ---------------------------------------------------------------------------------------------------------------
+
+static BUILD_LOCK: Mutex<()> = Mutex::new(());
+
+fn build_client() -> Client {
+    let _g = BUILD_LOCK.lock().unwrap_or_else(|e| e.into_inner());
+    let downloader =
+        HttpFileDownloader::new(FeedbackSender::new(&[]), discard_logger()).expect("HttpFileDownloader::new");
+    let client = ClientBuilder::new(AggregatorDiscoveryType::Url("http://127.0.0.1:9/aggregator".to_string()))
+        .set_genesis_verification_key(GenesisVerificationKey::JsonHex(fake_keys::genesis_verification_key()[0].to_string()))
+        .with_http_file_downloader(Arc::new(downloader))
+        .build()
+        .expect("ClientBuilder::build");
+    // the client's digest download directory is `$TMPDIR/mithril_client_<µs>_<µs>`: keep the builds of different
+    // threads apart in time so that no two clients share it (no influence on any verdict)
+    std::thread::sleep(std::time::Duration::from_millis(3));
+    client
+}
+
+fn with_client<R>(f: impl FnOnce(&Client) -> R) -> R {
+    thread_local! {
+        static CLIENT: std::cell::OnceCell<Client> = const { std::cell::OnceCell::new() };
+    }
+    CLIENT.with(|c| f(c.get_or_init(build_client)))
+}
+
+// ---------------------------------------------------------------------------------------------------------------
+// world: honest database, certified side, served list
+// ---------------------------------------------------------------------------------------------------------------
+
+struct World {
+    db_dir: PathBuf,
+    imm_dir: PathBuf,
+    served: PathBuf,
+    /// regular files directly inside immutable/
+    model: Model,
+    /// harness-side certified map: canonical name -> SHA-256 hex of the honest content (numbers first..=last)
+    m: BTreeMap<String, String>,
+    beacon: u64,
+    certificate: MithrilCertificate,
+    snapshot: CardanoDatabaseSnapshot,
+    signed_root: String,
+    /// the digest list as the real digester produced it
+    honest_list: Vec<(String, String)>,
+}
+
+fn write_list(path: &Path, list: &[(String, String)]) {
+    let msg: Vec<CardanoDatabaseDigestListItemMessage> = list
+        .iter()
+        .map(|(n, d)| CardanoDatabaseDigestListItemMessage { immutable_file_name: n.clone(), digest: d.clone() })
+        .collect();
+    std::fs::write(path, serde_json::to_vec(&msg).unwrap()).expect("write digest list");
+}
+
+impl World {
+    fn build(root: &Path, db: &Db10, rt: &tokio::runtime::Runtime) -> Result<World, (String, String)> {
+        let db_dir = root.join("restored");
+        let imm_dir = db_dir.join("immutable");
+        std::fs::create_dir_all(&imm_dir).unwrap();
+        std::fs::create_dir_all(db_dir.join("ledger")).unwrap();
+        std::fs::write(db_dir.join("ledger").join("437"), b"ledger state").unwrap();
+        let served_dir = root.join("served");
+        std::fs::create_dir_all(&served_dir).unwrap();
+        let served = served_dir.join("digests.json");
+
+        let mut model = Model::new();
+        let mut m = BTreeMap::new();
+        let beacon = db.last();
+        for (i, t) in db.trios.iter().enumerate() {
+            for (e, c) in t.iter().enumerate() {
+                let name = canonical_name(db.first + i as u64, e);
+                let b = c.bytes();
+                m.insert(name.clone(), sha256_hex(&b));
+                model.insert(name, b);
+            }
+        }
+        if let Some(t) = &db.in_progress {
+            for (e, c) in t.iter().enumerate() {
+                model.insert(canonical_name(beacon + 1, e), c.bytes());
+            }
+        }
+        for (name, b) in &model {
+            std::fs::write(imm_dir.join(name), b).unwrap();
+        }
+
+        // ---- certified side, by the real code (aggregator role)
+        let digester = CardanoImmutableDigester::new(None, discard_logger());
+        let signed_root = match cut_root(rt, &digester, &db_dir, beacon) {
+            Outcome::Root(r) => r,
+            other => return Err(("certified-side-error".into(), format!("compute_merkle_tree on the honest database: {other:?}"))),
+        };
+        let entries = rt
+            .block_on(digester.compute_digests_for_range(&db_dir, &(0..=beacon)))
+            .map_err(|e| ("certified-side-error".to_string(), format!("compute_digests_for_range: {e:?}")))?
+            .entries;
+        let honest_list: Vec<(String, String)> = entries.iter().map(|(f, d)| (f.filename.clone(), d.clone())).collect();
+        // cross-check with the harness' restatement (names, SHA-256, MMR)
+        let own_list: Vec<(String, String)> = m.iter().map(|(n, d)| (n.clone(), d.clone())).collect();
+        let own_root = mmr_root_hex(&own_list.iter().map(|x| x.1.as_str()).collect::<Vec<_>>()).unwrap();
+        if honest_list != own_list || own_root != signed_root {
+            return Err((
+                "certified-side-differs-from-sha256-restatement".into(),
+                format!("digester list/root {honest_list:?} / {signed_root} vs harness {own_list:?} / {own_root}"),
+            ));
+        }
+
+        let mut certificate = MithrilCertificate::dummy();
+        certificate
+            .protocol_message
+            .set_message_part(ProtocolMessagePartKey::CardanoDatabaseMerkleRoot, signed_root.clone());
+        certificate.signed_message = certificate.protocol_message.compute_hash();
+
+        let mut snapshot = CardanoDatabaseSnapshot::dummy();
+        snapshot.beacon.immutable_file_number = beacon;
+        snapshot.merkle_root = signed_root.clone();
+        snapshot.certificate_hash = certificate.hash.clone();
+        snapshot.digests = DigestsMessagePart {
+            size_uncompressed: 1024,
+            locations: vec![DigestLocation::CloudStorage {
+                uri: format!("file://{}", served.display()),
+                compression_algorithm: None,
+            }],
+        };
+        Ok(World { db_dir, imm_dir, served, model, m, beacon, certificate, snapshot, signed_root, honest_list })
+    }
+
+    fn write(&mut self, name: &str, bytes: Vec<u8>) {
+        std::fs::write(self.imm_dir.join(name), &bytes).expect("write");
+        self.model.insert(name.to_string(), bytes);
+    }
+    fn remove(&mut self, name: &str) {
+        if self.model.remove(name).is_some() {
+            std::fs::remove_file(self.imm_dir.join(name)).expect("remove");
+        }
+    }
+}
+
+/// the requested range as the documentation of `ImmutableFileRange` defines it (first immutable file number = 0)
+fn requested_range(spec: &RangeSpec, last: u64) -> (ImmutableFileRange, Option<(u64, u64)>, &'static str) {
+    let n = last as usize + 1;
+    if spec.invalid {
+        return match spec.kind % 3 {
+            0 => (ImmutableFileRange::From(last + 1 + (spec.a % 3) as u64), None, "invalid"),
+            1 => (ImmutableFileRange::UpTo(last + 1 + (spec.a % 3) as u64), None, "invalid"),
+            _ => {
+                let b = pick_index(spec.b, n) as u64;
+                (ImmutableFileRange::Range(b + 1, b), None, "invalid")
+            }
+        };
+    }
+    match spec.kind % 4 {
+        0 => (ImmutableFileRange::Full, Some((0, last)), "full"),
+        1 => {
+            let a = pick_index(spec.a, n) as u64;
+            (ImmutableFileRange::From(a), Some((a, last)), "from")
+        }
+        2 => {
+            let b = pick_index(spec.b, n) as u64;
+            (ImmutableFileRange::UpTo(b), Some((0, b)), "up-to")
+        }
+        _ => {
+            let x = pick_index(spec.a, n) as u64;
+            let y = pick_index(spec.b, n) as u64;
+            let (a, b) = (x.min(y), x.max(y));
+            (ImmutableFileRange::Range(a, b), Some((a, b)), if a == b { "single" } else { "inner" })
+        }
+    }
+}
+
+/// number of a file name as far as "immutable file number N" can be read off a name: digits '.' immutable extension
+fn loose_number(name: &str) -> Option<u64> {
+    parse_immutable_name(name).map(|x| x.0)
+}
+
+fn has_unparsable_immutable(model: &Model) -> bool {
+    model.keys().any(|n| {
+        let ext = Path::new(n).extension().and_then(|e| e.to_str());
+        ext.is_some_and(|e| crate::c12::EXTS.contains(&e)) && parse_immutable_name(n).is_none()
+    })
+}
+
+#[derive(Default, Debug)]
+struct Offending {
+    missing: Vec<String>,
+    /// canonical certified name, wrong content
+    tampered: Vec<String>,
+    /// immutable-named file with a number in the range that the certified list does not know
+    foreign: Vec<String>,
+}
+
+impl Offending {
+    fn is_empty(&self) -> bool {
+        self.missing.is_empty() && self.tampered.is_empty() && self.foreign.is_empty()
+    }
+}
+
+fn offending(w: &World, range: (u64, u64), allow_missing: bool) -> Offending {
+    let mut o = Offending::default();
+    for n in range.0..=range.1 {
+        for e in 0..3 {
+            let name = canonical_name(n, e);
+            match (w.model.get(&name), w.m.get(&name)) {
+                (None, _) => {
+                    if !allow_missing {
+                        o.missing.push(name);
+                    }
+                }
+                (Some(b), Some(d)) => {
+                    if sha256_hex(b) != *d {
+                        o.tampered.push(name);
+                    }
+                }
+                (Some(_), None) => o.foreign.push(name),
+            }
+        }
+    }
+    for name in w.model.keys() {
+        if let Some(n) = loose_number(name)
+            && n >= range.0
+            && n <= range.1
+            && *name != canonical_name(n, crate::c12::EXTS.iter().position(|x| name.ends_with(x)).unwrap_or(0))
+        {
+            o.foreign.push(name.clone());
+        }
+    }
+    o
+}
+
+// ---------------------------------------------------------------------------------------------------------------
+// tampering
+// ---------------------------------------------------------------------------------------------------------------
+
+fn apply_dir_tamper(w: &mut World, db: &Db10, t: &DirTamper, labels: &mut BTreeSet<String>) {
+    // canonical file names currently present (certified range and the in-progress trio)
+    let present: Vec<String> = w
+        .model
+        .keys()
+        .filter(|k| loose_number(k).is_some_and(|n| **k == canonical_name(n, crate::c12::EXTS.iter().position(|x| k.ends_with(x)).unwrap())))
+        .cloned()
+        .collect();
+    if present.is_empty() {
+        return;
+    }
+    let pick = |raw: u16| present[pick_index(raw, present.len())].clone();
+    let certified: Vec<String> = w.m.keys().cloned().collect();
+    match t {
+        DirTamper::Flip { file, pos, xor } => {
+            let name = pick(*file);
+            let mut b = w.model[&name].clone();
+            if b.is_empty() {
+                b.push(*xor);
+            } else {
+                let p = if *pos == u16::MAX { b.len() - 1 } else { pick_index(*pos, b.len()) };
+                b[p] ^= (*xor).max(1);
+            }
+            w.write(&name, b);
+            labels.insert("dir:flip".into());
+        }
+        DirTamper::Truncate { file, newlen } => {
+            let name = pick(*file);
+            let mut b = w.model[&name].clone();
+            if b.is_empty() {
+                b.push(7);
+            } else {
+                let l = if *newlen == u16::MAX { b.len() - 1 } else { pick_index(*newlen, b.len()) };
+                b.truncate(l);
+            }
+            w.write(&name, b);
+            labels.insert("dir:truncate".into());
+        }
+        DirTamper::Append { file, extra } => {
+            let name = pick(*file);
+            let mut b = w.model[&name].clone();
+            b.extend_from_slice(extra);
+            w.write(&name, b);
+            labels.insert("dir:append".into());
+        }
+        DirTamper::Delete { file } => {
+            let name = pick(*file);
+            w.remove(&name);
+            labels.insert("dir:delete".into());
+        }
+        DirTamper::DeleteTrio { trio } => {
+            let n = db.first + pick_index(*trio, db.trios.len()) as u64;
+            for e in 0..3 {
+                w.remove(&canonical_name(n, e));
+            }
+            labels.insert("dir:delete-trio".into());
+        }
+        DirTamper::ReplaceFresh { file, content } => {
+            let name = pick(*file);
+            w.write(&name, content.bytes());
+            labels.insert("dir:replace-fresh".into());
+        }
+        DirTamper::Swap { a, b } => {
+            let (na, nb) = (pick(*a), pick(*b));
+            let (ca, cb) = (w.model[&na].clone(), w.model[&nb].clone());
+            if ca != cb {
+                labels.insert("dir:swap-contents".into());
+                let same_ext = na.rsplit('.').next() == nb.rsplit('.').next();
+                labels.insert(if same_ext { "dir:swap-same-extension".into() } else { "dir:swap-different-extension".into() });
+            } else {
+                labels.insert("dir:swap-equal-contents(no-op)".into());
+            }
+            w.write(&na, cb);
+            w.write(&nb, ca);
+        }
+        DirTamper::CopyOver { from, to } => {
+            let (nf, nt) = (pick(*from), pick(*to));
+            let c = w.model[&nf].clone();
+            if c != w.model[&nt] {
+                labels.insert("dir:copy-certified-over-other-name".into());
+            }
+            w.write(&nt, c);
+        }
+        DirTamper::RotateExt { ext } => {
+            let e = (*ext % 3) as usize;
+            let names: Vec<String> =
+                (db.first..=db.last()).map(|n| canonical_name(n, e)).filter(|n| w.model.contains_key(n)).collect();
+            if names.len() >= 2 {
+                let contents: Vec<Vec<u8>> = names.iter().map(|n| w.model[n].clone()).collect();
+                for (i, n) in names.iter().enumerate() {
+                    w.write(n, contents[(i + 1) % names.len()].clone());
+                }
+                labels.insert("dir:rotate-one-extension".into());
+            }
+        }
+        DirTamper::AddForeign { kind, num, ext, copy_of, content } => {
+            let bytes = match copy_of {
+                Some(raw) if !certified.is_empty() => {
+                    labels.insert("dir:foreign-with-certified-content".into());
+                    let src = &certified[pick_index(*raw, certified.len())];
+                    // the honest content of that certified name
+                    let idx = (parse_immutable_name(src).unwrap().0 - db.first) as usize;
+                    let e = crate::c12::EXTS.iter().position(|x| src.ends_with(x)).unwrap();
+                    db.trios[idx][e].bytes()
+                }
+                _ => content.bytes(),
+            };
+            let e = crate::c12::EXTS[(*ext % 3) as usize];
+            let n_in = pick_index(*num, db.last() as usize + 1) as u64;
+            match kind % 7 {
+                0 => {
+                    let name = format!("{n_in}.{e}");
+                    if name != canonical_name(n_in, (*ext % 3) as usize) {
+                        w.write(&name, bytes);
+                        labels.insert("dir:foreign-unpadded-number".into());
+                    }
+                }
+                1 => {
+                    w.write(&format!("{n_in:06}.{e}"), bytes);
+                    labels.insert("dir:foreign-six-digit-name".into());
+                }
+                2 => {
+                    w.write(&canonical_name(db.last() + 2 + (*num % 3) as u64, (*ext % 3) as usize), bytes);
+                    labels.insert("dir:foreign-beyond-beacon".into());
+                }
+                3 => {
+                    w.write(&format!("{n_in:05}.{e}.bak"), bytes);
+                    labels.insert("dir:foreign-non-immutable-name".into());
+                }
+                4 => {
+                    w.write(&format!("abc.{e}"), bytes);
+                    labels.insert("dir:foreign-non-numeric-stem".into());
+                }
+                5 => {
+                    std::fs::write(w.db_dir.join(canonical_name(n_in, (*ext % 3) as usize)), bytes).unwrap();
+                    labels.insert("dir:foreign-beside-immutable".into());
+                }
+                _ => {
+                    if db.first > 0 {
+                        let n = pick_index(*num, db.first as usize) as u64;
+                        w.write(&canonical_name(n, (*ext % 3) as usize), bytes);
+                        labels.insert("dir:foreign-below-first-certified".into());
+                    }
+                }
+            }
+        }
+    }
+}
+
+fn apply_list_tamper(list: &mut Vec<(String, String)>, w: &World, t: &ListTamper, labels: &mut BTreeSet<String>) {
+    let len = list.len();
+    let idx = |raw: u16| pick_index(raw, len.max(1));
+    match t {
+        ListTamper::Reverse => {
+            list.reverse();
+            labels.insert("list:reorder".into());
+        }
+        ListTamper::Shuffle(seed) => {
+            shuffle(list, *seed);
+            labels.insert("list:reorder".into());
+        }
+        ListTamper::AddBeyondBeacon { n } => {
+            for k in 0..*n as u64 {
+                list.push((canonical_name(w.beacon + 1 + k, (k % 3) as usize), sha256_hex(&k.to_le_bytes())));
+            }
+            labels.insert("list:add-beyond-beacon".into());
+        }
+        ListTamper::AddUnparsable => {
+            list.push(("abc.chunk".into(), sha256_hex(b"abc")));
+            list.push(("README".into(), sha256_hex(b"readme")));
+            labels.insert("list:add-unparsable".into());
+        }
+        ListTamper::DuplicateIdentical { i } if len > 0 => {
+            let e = list[idx(*i)].clone();
+            list.push(e);
+            labels.insert("list:duplicate-identical".into());
+        }
+        ListTamper::RenameKeepOrder { i } if len > 0 => {
+            let k = idx(*i);
+            list[k].0 = format!("{}0", list[k].0);
+            labels.insert("list:rename-keeping-order".into());
+        }
+        ListTamper::Drop { i } if len > 0 => {
+            list.remove(idx(*i));
+            labels.insert("list:drop".into());
+        }
+        ListTamper::RenameBeyond { i } if len > 0 => {
+            let k = idx(*i);
+            list[k].0 = canonical_name(w.beacon + 5, 0);
+            labels.insert("list:rename-beyond-beacon".into());
+        }
+        ListTamper::SwapDigests { i, j } if len > 0 => {
+            let (a, b) = (idx(*i), idx(*j));
+            let t = list[a].1.clone();
+            list[a].1 = list[b].1.clone();
+            list[b].1 = t;
+            labels.insert("list:swap-digests".into());
+        }
+        ListTamper::SwapNames { i, j } if len > 0 => {
+            let (a, b) = (idx(*i), idx(*j));
+            let t = list[a].0.clone();
+            list[a].0 = list[b].0.clone();
+            list[b].0 = t;
+            labels.insert("list:swap-names".into());
+        }
+        ListTamper::FlipDigest { i, pos } if len > 0 => {
+            let k = idx(*i);
+            let mut d: Vec<u8> = list[k].1.clone().into_bytes();
+            if !d.is_empty() {
+                let p = *pos as usize % d.len();
+                d[p] = if d[p] == b'0' { b'1' } else { b'0' };
+                list[k].1 = String::from_utf8(d).unwrap();
+            }
+            labels.insert("list:flip-digest".into());
+        }
+        ListTamper::AddInRange { num, digest_of } => {
+            let n = pick_index(*num, w.beacon as usize + 1) as u64;
+            list.push((format!("{n:05}.tertiary"), sha256_hex(&digest_of.bytes())));
+            labels.insert("list:add-in-range".into());
+        }
+        ListTamper::DuplicateConflicting { i, digest_of } if len > 0 => {
+            let k = idx(*i);
+            list.push((list[k].0.clone(), sha256_hex(&digest_of.bytes())));
+            labels.insert("list:duplicate-conflicting".into());
+        }
+        ListTamper::Empty => {
+            list.clear();
+            labels.insert("list:empty".into());
+        }
+        _ => {}
+    }
+}
+
+// ---------------------------------------------------------------------------------------------------------------
+// the case function
+// ---------------------------------------------------------------------------------------------------------------
+
+enum Verdict {
+    Accepted,
+    /// rejected with the three lists
+    Lists { missing: Vec<String>, tampered: Vec<String>, non_verifiable: Vec<String> },
+    /// proof returned, but the recomputed message does not match the certificate
+    MessageMismatch,
+    OtherError(String),
+}
+
+fn run_verification(
+    rt: &tokio::runtime::Runtime,
+    w: &World,
+    range: &ImmutableFileRange,
+    allow_missing: bool,
+) -> Result<(BTreeMap<String, String>, String, Verdict), String> {
+    with_client(|client| {
+        let cdb = client.cardano_database_v2();
+        let verified = rt
+            .block_on(cdb.download_and_verify_digests(&w.certificate, &w.snapshot))
+            .map_err(|e| format!("{e:?}"))?;
+        let tree_root = verified.merkle_tree.compute_root().map(|r| r.to_hex()).unwrap_or_default();
+        let res = rt.block_on(cdb.verify_cardano_database(
+            &w.certificate,
+            &w.snapshot,
+            range,
+            allow_missing,
+            &w.db_dir,
+            &verified,
+        ));
+        let verdict = match res {
+            Ok(proof) => {
+                let msg = rt
+                    .block_on(MessageBuilder::new().compute_cardano_database_message(&w.certificate, &proof))
+                    .map_err(|e| format!("compute_cardano_database_message: {e:?}"));
+                match msg {
+                    Ok(m) if w.certificate.match_message(&m) => Verdict::Accepted,
+                    Ok(_) => Verdict::MessageMismatch,
+                    Err(e) => Verdict::OtherError(e),
+                }
+            }
+            Err(CardanoDatabaseVerificationError::ImmutableFilesVerification(l)) => {
+                Verdict::Lists { missing: l.missing, tampered: l.tampered, non_verifiable: l.non_verifiable }
+            }
+            Err(e) => Verdict::OtherError(format!("{e:?}").chars().take(300).collect()),
+        };
+        Ok((verified.digests.clone(), tree_root, verdict))
+    })
+}
+
+fn case10(c: &Case10) -> Report {
+    let mut rep = Report::new();
+    let scratch = Scratch::new("c10");
+    let rt = new_runtime();
+    let mut w = match World::build(scratch.path(), &c.db, &rt) {
+        Ok(w) => w,
+        Err((key, what)) => {
+            rep.violation(key, what);
+            return rep;
+        }
+    };
+    let last = w.beacon;
+    let (range, range_nums, range_class) = requested_range(&c.range, last);
+    rep.label(format!("range:{range_class}"));
+    rep.label(if c.allow_missing { "allow-missing:yes" } else { "allow-missing:no" });
+    {
+        let vals: BTreeSet<&String> = w.m.values().collect();
+        if vals.len() < w.m.len() {
+            rep.label("db:equal-contents");
+        }
+    }
+
+    // ---- tamper
+    let mut labels: BTreeSet<String> = BTreeSet::new();
+    for t in &c.dir {
+        apply_dir_tamper(&mut w, &c.db, t, &mut labels);
+    }
+    let mut served = w.honest_list.clone();
+    for t in &c.list {
+        apply_list_tamper(&mut served, &w, t, &mut labels);
+    }
+    write_list(&w.served, &served);
+    for l in &labels {
+        rep.label(l.clone());
+    }
+    let list_only_reordered = {
+        let mut a = served.clone();
+        a.sort();
+        a == w.honest_list
+    };
+
+    // ---- run the caller's sequence
+    let (digests, tree_root, verdict) = match run_verification(&rt, &w, &range, c.allow_missing) {
+        Err(e) => {
+            rep.label("digests:rejected");
+            if list_only_reordered {
+                rep.violation(
+                    "honest-digest-list-rejected",
+                    format!("the digest list produced by the digester (at most reordered) was rejected: {e}"),
+                );
+            }
+            if !c.list.is_empty() {
+                rep.nontrivial(format!("list-rejected|{labels:?}"));
+            }
+            return rep;
+        }
+        Ok(x) => x,
+    };
+    rep.label("digests:accepted");
+
+    // ---- oracle A
+    let served_pairs: BTreeSet<(&String, &String)> = served.iter().map(|(n, d)| (n, d)).collect();
+    if let Some((n, d)) = digests.iter().find(|(n, d)| !served_pairs.contains(&(*n, *d))) {
+        rep.violation("verified-digests-not-from-served-list", format!("returned entry {n} -> {d} is not in the served list"));
+        return rep;
+    }
+    let own_root = mmr_root_hex(&digests.values().map(|s| s.as_str()).collect::<Vec<_>>()).unwrap_or_default();
+    if own_root != w.signed_root || tree_root != w.signed_root {
+        rep.violation(
+            "digest-list-accepted-with-wrong-root",
+            format!(
+                "served list {served:?} accepted; root of the returned digests (harness MMR) {own_root}, root of the returned tree {tree_root}, signed root {}",
+                w.signed_root
+            ),
+        );
+        return rep;
+    }
+    let names_differ = digests != w.m;
+    if names_differ {
+        // the Merkle root authenticates the digest sequence only
+        rep.label("digests:accepted-with-names-differing-from-certified");
+    }
+    if !c.list.is_empty() && !list_only_reordered {
+        rep.label("digests:accepted-modified-list-keeping-root");
+    }
+
+    // ---- oracles B, C, D
+    let verdict_class = match &verdict {
+        Verdict::Accepted => "accepted",
+        Verdict::Lists { .. } => "rejected-with-lists",
+        Verdict::MessageMismatch => "rejected-message-mismatch",
+        Verdict::OtherError(_) => "rejected-other-error",
+    };
+    rep.label(format!("verdict:{verdict_class}"));
+    let Some(rn) = range_nums else {
+        if matches!(verdict, Verdict::Accepted) {
+            rep.violation("accepted-invalid-range", format!("range {range:?} with last immutable {last} was accepted"));
+        }
+        return rep;
+    };
+    let off = offending(&w, rn, c.allow_missing);
+    let unparsable = has_unparsable_immutable(&w.model);
+    let certified_values: BTreeSet<&String> = w.m.values().collect();
+    let is_member = |name: &String| w.model.get(name).is_some_and(|b| certified_values.contains(&sha256_hex(b)));
+    let in_range_present = w.model.keys().filter(|k| loose_number(k).is_some_and(|n| n >= rn.0 && n <= rn.1)).count();
+
+    let wrong = off.tampered.iter().chain(off.foreign.iter()).cloned().collect::<Vec<_>>();
+    let permutation_type = !wrong.is_empty() && wrong.iter().all(is_member);
+    if permutation_type {
+        rep.label("offending:certified-content-under-wrong-name");
+    }
+    if wrong.iter().any(|n| !is_member(n)) {
+        rep.label("offending:uncertified-content");
+    }
+    if !off.missing.is_empty() {
+        rep.label("offending:missing");
+    }
+    if off.is_empty() {
+        rep.label(if c.dir.is_empty() { "offending:none(untouched)" } else { "offending:none(tampering-out-of-range-or-no-op)" });
+    }
+
+    match &verdict {
+        Verdict::Accepted => {
+            if unparsable {
+                rep.violation(
+                    "accepted-with-unparsable-immutable-file",
+                    "directory with an immutable file whose number cannot be read was accepted".to_string(),
+                );
+            } else if !off.missing.is_empty() {
+                rep.violation(
+                    "accepted-missing-file",
+                    format!("range {range:?} allow_missing={} accepted although {:?} are missing", c.allow_missing, off.missing),
+                );
+            } else if wrong.iter().any(|n| !is_member(n)) {
+                rep.violation(
+                    "accepted-uncertified-content",
+                    format!("range {range:?} accepted although {wrong:?} do not hold their certified content (tampering {:?})", c.dir),
+                );
+            } else if !wrong.is_empty() {
+                rep.violation(
+                    KEY_WRONG_NAME,
+                    format!(
+                        "range {range:?} accepted although {wrong:?} hold the certified content of OTHER file names (tampering {:?})",
+                        c.dir
+                    ),
+                );
+            }
+        }
+        Verdict::Lists { missing, tampered, non_verifiable } => {
+            let reported: BTreeSet<&String> = missing.iter().chain(tampered.iter()).chain(non_verifiable.iter()).collect();
+            let all: Vec<&String> = off.missing.iter().chain(wrong.iter()).collect();
+            let unreported: Vec<&String> = all.iter().filter(|n| !reported.contains(*n)).cloned().collect();
+            if off.is_empty() && in_range_present > 0 && !unparsable {
+                rep.violation(
+                    "honest-rejected",
+                    format!(
+                        "range {range:?} allow_missing={}: every file in the range is the certified one, yet rejected with missing={missing:?} tampered={tampered:?} non_verifiable={non_verifiable:?}",
+                        c.allow_missing
+                    ),
+                );
+            } else if !unreported.is_empty() {
+                let key = if unreported.iter().all(|n| is_member(n)) { KEY_WRONG_NAME_UNREPORTED } else { "unreported-offending-file" };
+                rep.violation(
+                    key,
+                    format!(
+                        "range {range:?} allow_missing={} rejected, but {unreported:?} are not reported (missing={missing:?} tampered={tampered:?} non_verifiable={non_verifiable:?}; tampering {:?})",
+                        c.allow_missing, c.dir
+                    ),
+                );
+            }
+            if !names_differ {
+                // precision of the report (informative only)
+                let accused_ok = tampered.iter().chain(non_verifiable.iter()).any(|n| !wrong.contains(n));
+                if accused_ok {
+                    rep.label("report:accuses-a-file-outside-the-harness-offending-set");
+                }
+            }
+        }
+        Verdict::MessageMismatch => {
+            if off.is_empty() && in_range_present > 0 && !unparsable {
+                rep.violation("honest-rejected", "proof returned but the recomputed message does not match the certificate".to_string());
+            }
+        }
+        Verdict::OtherError(e) => {
+            if off.is_empty() && in_range_present > 0 && !unparsable {
+                rep.violation("honest-rejected", format!("range {range:?}: every file in the range is the certified one, yet error {e}"));
+            }
+        }
+    }
+
+    let list_nontrivial = !c.list.is_empty() && !list_only_reordered;
+    if permutation_type || list_nontrivial {
+        rep.nontrivial(format!("{labels:?}|{range_class}|am={}|{verdict_class}|perm={permutation_type}", c.allow_missing));
+    }
+    rep
+}
+
+/// minimal reproduction of the open finding: the contents of two certified files are exchanged
+fn witness_swap() -> bool {
+    let c = Case10 {
+        db: Db10 {
+            first: 0,
+            trios: vec![
+                [Content { seed: 1, len: 10 }, Content { seed: 2, len: 10 }, Content { seed: 3, len: 10 }],
+                [Content { seed: 4, len: 10 }, Content { seed: 5, len: 10 }, Content { seed: 6, len: 10 }],
+            ],
+            in_progress: None,
+        },
+        range: RangeSpec { kind: 0, a: 0, b: 0, invalid: false },
+        allow_missing: false,
+        // 00000.chunk <-> 00001.chunk
+        dir: vec![DirTamper::Swap { a: 0, b: 33_000 }],
+        list: vec![],
+    };
+    let r = case10(&c);
+    matches!(&r.outcome, vcore::Outcome::Violation { key, .. } if key == KEY_WRONG_NAME)
+}
 
 pub fn run(args: &Args) -> i32 {
-    let check = Check::new("C10", "exploration", args);
-    check.inconclusive("check not implemented yet".into());
+    let mut check = Check::new("C10", "exploration", args);
+    check
+        .rule(
+            "honest database + certified side by the real code; 0-3 tamperings of the restored directory and 0-2 of the served \
+             digest list; non-trivial = a permutation-type tampering in the requested range (every offending file holds content \
+             certified for another name) or a modified digest list (not a mere reordering); distinct by (tamper classes, range \
+             kind, allow_missing, verdict)",
+        )
+        .assume("the certificate is authentic (its signed message is what the harness put there); certificate-chain verification is outside this property")
+        .assume("immutable numbers stay below 100000 (beyond that the client's name order and the digester's number order of the digest list diverge and honest lists are rejected — a completeness matter, not covered here)")
+        .assume("SHA-256 collision resistance; M = SHA-256 of the honest contents per file name is the certified assignment")
+        .require_label("dir:swap-contents")
+        .require_label("dir:swap-same-extension")
+        .require_label("dir:swap-different-extension")
+        .require_label("dir:copy-certified-over-other-name")
+        .require_label("dir:rotate-one-extension")
+        .require_label("dir:flip")
+        .require_label("dir:truncate")
+        .require_label("dir:append")
+        .require_label("dir:delete")
+        .require_label("dir:foreign-unpadded-number")
+        .require_label("dir:foreign-beyond-beacon")
+        .require_label("dir:foreign-with-certified-content")
+        .require_label("list:reorder")
+        .require_label("list:rename-keeping-order")
+        .require_label("list:drop")
+        .require_label("list:swap-digests")
+        .require_label("list:swap-names")
+        .require_label("list:add-in-range")
+        .require_label("list:duplicate-conflicting")
+        .require_label("digests:accepted")
+        .require_label("digests:rejected")
+        .require_label("digests:accepted-modified-list-keeping-root")
+        .require_label("range:full")
+        .require_label("range:from")
+        .require_label("range:up-to")
+        .require_label("range:inner")
+        .require_label("range:single")
+        .require_label("allow-missing:yes")
+        .require_label("allow-missing:no")
+        .require_label("offending:certified-content-under-wrong-name")
+        .require_label("offending:uncertified-content")
+        .require_label("offending:missing")
+        .require_label("offending:none(untouched)")
+        .require_label("offending:none(tampering-out-of-range-or-no-op)")
+        .require_label("verdict:accepted")
+        .require_label("verdict:rejected-with-lists");
+    if let Err(e) = mmr_self_test() {
+        check.inconclusive(e);
+        return check.finish();
+    }
+    let t = check.tier;
+    check.section("tamper", case_strategy, t.pick(6000, 150_000), case10);
+    check.witness(
+        KEY_WRONG_NAME,
+        "verify_cardano_database accepts a directory in which the contents of 00000.chunk and 00001.chunk are exchanged",
+        witness_swap,
+    );
     check.finish()
 }
